@@ -12,12 +12,31 @@ from pde.trackers.interrupts import GeometricInterrupts
 from pde import DiffusionPDE, ScalarField, UnitGrid
 
 
+class TimeDependent(pde.PDEBase):
+    """du/dt = a*u + b*cos(3 t): the rate depends explicitly on time, so stale or shifted times show up in the state"""
+
+    def __init__(self, a=-0.4, b=1.3):
+        super().__init__()
+        self.a, self.b = a, b
+
+    def evolution_rate(self, state, t=0):
+        return self.a * state + self.b * np.cos(3 * t)
+
+    def make_evolution_rate(self, state, backend):
+        a, b = self.a, self.b
+
+        def rhs(arr, t):
+            return a * arr + b * np.cos(3 * t)
+
+        return rhs
+
+
 def run(payload):
     rng = np.random.default_rng(payload.get("seed", 0))
     fails, cases = [], 0
     grid = UnitGrid([6], periodic=True)
-    eq = DiffusionPDE(0.5)
     for k in range(payload.get("n", 40)):
+        eq = DiffusionPDE(0.5) if (k // 6) % 2 == 0 else TimeDependent()
         dt = float(rng.choice([0.1, 0.01, 0.25, 0.3, 0.07, 1e-3, 0.125]))
         N = int(rng.integers(1, 60))
         t0 = float(rng.choice([0.0, 0.0, 1.0, 0.3, -2.0]))
@@ -36,10 +55,11 @@ def run(payload):
         ok = (info["solver"]["steps"] == N and info0["solver"]["steps"] == N
               and abs(info["controller"]["t_final"] - t1) <= 1e-9 * max(1, abs(t1))
               and np.array_equal(init.data, keep)
-              and np.allclose(res.data, base.data, rtol=1e-12, atol=1e-14)
-              and (solver == "adams-bashforth" or np.array_equal(res.data, base.data)))
+              and np.allclose(res.data, base.data, rtol=1e-10, atol=1e-12)
+              # bit identity is claimed for autonomous equations only (times differ by round-off between the two runs)
+              and (solver == "adams-bashforth" or not isinstance(eq, DiffusionPDE) or np.array_equal(res.data, base.data)))
         if not ok:
-            fails.append({"id": f"{solver}.{backend}", "dt": dt, "N": N, "t_start": t0, "steps_with_trackers": info["solver"]["steps"],
+            fails.append({"id": f"{solver}.{backend}", "equation": type(eq).__name__, "dt": dt, "N": N, "t_start": t0, "steps_with_trackers": info["solver"]["steps"],
                           "steps_without": info0["solver"]["steps"], "t_final": info["controller"]["t_final"], "t_end": t1,
                           "max_state_diff": float(np.max(np.abs(res.data - base.data))), "initial_modified": not np.array_equal(init.data, keep)})
     return {"ok": True, "cases": cases, "failures": fails[:6]}
